@@ -6,7 +6,7 @@
    Spec:  C04.delete_spec = the document with exactly the designated children
    removed (everything else untouched, relative order kept by construction). *)
 From Coq Require Import List ZArith NArith Bool String.
-From YP Require Import Outcome PyStr PyVal Doc Searches Mutate C04spec C04lists C04delete C04order.
+From YP Require Import Outcome PyStr PyVal Doc Searches Mutate C04spec C04lists C04delete C04order C04merge.
 Import ListNotations.
 Open Scope string_scope.
 
@@ -47,6 +47,21 @@ Theorem C04_delete_exact_single_path : forall d ps,
   delete_nodes (map (fun p => CNode p false) ps) d = Done (delete_spec d (map pc_pair ps)).
 Proof. exact delete_exact_plain. Qed.
 Print Assumptions C04_delete_exact_single_path.
+
+(* The dict branch of _delete_nodes first tests for a YAML-merge-key removal
+   (parentref is the anchor name of a mapping AND the parent has merge keys);
+   Mutate.delete_nodes_mg models that test (mg = the mappings that have merge
+   keys), the removal itself is outside the model.  In a document without merge
+   keys - and more generally whenever no processed coordinate passes the test -
+   the run is the ordinary one all theorems here speak about. *)
+Theorem C04_no_merge_keys : forall cs d, delete_nodes_mg [] cs d = delete_nodes cs d.
+Proof. exact delete_nodes_mg_nil. Qed.
+Print Assumptions C04_no_merge_keys.
+
+Theorem C04_merge_test_not_passed : forall mg ps d,
+  no_ymk_hit mg ps d = true -> run_del_mg mg ps d = run_del ps d.
+Proof. exact run_del_mg_no_hit. Qed.
+Print Assumptions C04_merge_test_not_passed.
 
 (* Deleting the document root is refused with a YAML Path error and changes
    nothing (the root coordinate is the one the loop meets first). *)
@@ -101,6 +116,22 @@ Example C04_ordered_nonvacuous :
                   [mkpc (Some 2%N) (PInt 0); mkpc (Some 2%N) (PInt 1); mkpc (Some 2%N) (PInt 2); mkpc (Some 2%N) (PInt 3);
                    mkpc (Some 0%N) (PStr "b")]) doc1
   = Done (NMap (ct 0) [ (sk 1 "a", NSeq (ct 2) []) ]).
+Proof. vm_compute. repeat split. Qed.
+
+(* {m1: 1, base: &m1 {x: 1}, u: {z: 3 + merged x}}: key m1 is spelled like the anchor of the mapping `base`;
+   the root has no merge keys (only u, oid 9, has), so `m1` is an ordinary delete; the same key inside u would
+   enter the merge-key removal *)
+Definition docM : node :=
+  NMap (ct 0) [ (sk 1 "m1", iv 2 1);
+                (sk 3 "base", NMap (mkinfo 4 (Some "m1") true None) [ (sk 5 "x", iv 2 1) ]);
+                (sk 8 "u", NMap (ct 9) [ (sk 10 "z", iv 11 3); (sk 5 "x", iv 2 1) ]) ].
+Example C04_merge_test_nonvacuous :
+  is_ymk_anchor (PStr "m1") docM = true /\
+  no_ymk_hit [9%N] [mkpc (Some 0%N) (PStr "m1")] docM = true /\
+  delete_nodes_mg [9%N] [plain 0 (PStr "m1")] docM
+  = Done (NMap (ct 0) [ (sk 3 "base", NMap (mkinfo 4 (Some "m1") true None) [ (sk 5 "x", iv 2 1) ]);
+                        (sk 8 "u", NMap (ct 9) [ (sk 10 "z", iv 11 3); (sk 5 "x", iv 2 1) ]) ]) /\
+  delete_nodes_mg [9%N] [plain 9 (PStr "m1")] docM = Failed docM (PyCrash NotImplemented).
 Proof. vm_compute. repeat split. Qed.
 
 Example C04_root_nonvacuous :
